@@ -38,6 +38,7 @@ var c16Inits = []c16Init{
 	{name: "fresh", none: true},
 	{name: "finished", src: "a := 1\nb := 2", finish: true},
 	{name: "top", src: "a := 1\nb := 2\nc := 3", breaks: []int{2}},
+	{name: "toplist", src: "a := [1, {\"k\": 2}]\nb := 2\nc := 3", breaks: []int{2}},
 	{name: "call1", src: "func f(x) {\n  y := x\n  return y\n}\na := f(1)\nb := 2", breaks: []int{2}},
 	{name: "call2", src: "func g(x) {\n  return x * 2\n}\nfunc f(x) {\n  let z := g(x)\n  return z + 1\n}\nr := f(2)", breaks: []int{2}},
 	// single-statement programs: the root node itself carries a token, so the
@@ -254,6 +255,12 @@ func c16Menu(in c16Init, full bool) []string {
 	tids := []string{"1", "7", "0", "-1", "9223372036854775808", "abc"}
 	targets := []string{"v:2", "v:1", "zz:1", "v:", ":1", "v:x", "v", "v:2:3", "v:99999999999999999999"}
 	names := []string{"a", "x", "1a", "y"}
+	// container paths (the state "toplist" holds a := [1, {"k": 2}]): existing,
+	// negative, out of range on both sides, through a non-container
+	paths := []string{"a.b", "nosuch.f", "a.7", "a.0", "a.1.k", "a.-1", "a.-5", "a.1.-1"}
+	if in.name == "toplist" {
+		names = append(names, paths...)
+	}
 	// expressions that call a function defined by the debugged program are in
 	// the separate scenario inject-program-function (known finding C16-inject)
 	exprs := []string{"1", "1+", "a", "{{", "x := 1", "[1,2]", "1 2", "len(a)", "nofunc(1)"}
@@ -305,7 +312,7 @@ func c16Menu(in c16Init, full bool) []string {
 	for _, t := range tids {
 		// targets: a variable, a malformed name, and paths the scope cannot write
 		// (through a non-container, into an unknown container, index out of range)
-		for _, n1 := range []string{"a", "1a", "a.b", "nosuch.f", "a.7"} {
+		for _, n1 := range append([]string{"a", "1a"}, paths...) {
 			for _, e := range exprs {
 				if !full && t != "1" && e != "1" {
 					continue
@@ -321,6 +328,16 @@ func c16Menu(in c16Init, full bool) []string {
 	add("foo 1 2")
 	add("")
 	add("   ")
+	if in.name == "toplist" && !full {
+		// the list state exists for the container paths: quick keeps the commands that take them
+		var r []string
+		for _, l := range m {
+			if strings.HasPrefix(l, "inject 1 ") || strings.HasPrefix(l, "extract 1 ") || l == "status" || l == "describe 1" || strings.HasPrefix(l, "cont 1 ") {
+				r = append(r, l)
+			}
+		}
+		return r
+	}
 	return m
 }
 
